@@ -42,6 +42,7 @@ def instances():
     ints = ["0", "7", "42", "007", "+3", "-5", "-0", "0x0", "0xff", "0XDEADbeef".replace("0X", "0x"), "0x1F", "0b0", "0b101", "0b00011",
             "9223372036854775807", "9223372036854775808", "18446744073709551615", "-9223372036854775808", "0xFFFFFFFFFFFFFFFF",
             "0x8000000000000000", "0b1" + "0" * 63, "0b" + "1" * 64]
+
     strs = ['""', '"a"', '"a b"', '"\\\\"', '"\\""', '"x\\\\"', '"\\\\\\""', '"\\t\\n"', "\"it\\'s\"", '"// not a comment"', '"/* nor this */"',
             '"[{"', '"}]"', '"#ifdef"', '"é€"', '"a\\\\\\\\"', '"!add"']
     codes = ["[{}]", "[{ c }]", "[{ a; } b ]}]", "[{ \" }]", "[{ // }]", "[{ /* }]", "[{\n multi\n line }]", "[{ [{ nested? }]", "[{ é }]"]
